@@ -271,6 +271,25 @@ def loadStep (env : Env) (s : StepSpec) (known : List String) : Except String St
             if acc.needed.all (known.contains ·) then pure ⟨resources, .step acc.needed, acc.pp⟩
             else pure ⟨resources, .error .permFail, acc.pp⟩
 
+/-- what a probe of the real `prepare_workflow` observed for its last step -/
+inductive NameObs where
+  | step (deps : List String)
+  | err (c : ErrCls)
+  | raised
+  deriving Repr
+
+/-- the probed step: label `probe_last`, a ready ValueFunction as Logic, the expression in `inputs` -/
+def nameProbeAgrees (known : List String) (inputsAst : Cel) (obs : NameObs) (parentProps : List String) : Bool :=
+  let spec : StepSpec := { label := some "probe_last", ref := some ⟨"ValueFunction", "probe_fn"⟩, refSwitch := none,
+                           skipIf := .absent, forEach := none, inputs := .ast inputsAst, state := .absent }
+  match loadStep (fun _ => .ready false []) spec known, obs with
+  | .ok out, .step deps =>
+    (match out.result with | .step d => sameSet d deps | _ => false) && sameSet out.parentProps parentProps
+  | .ok out, .err c =>
+    (match out.result with | .error c' => c == c' | _ => false) && sameSet out.parentProps parentProps
+  | .error _, .raised => true
+  | _, _ => false
+
 inductive Ready where
   | ok | retry | permFail
   deriving DecidableEq, Repr, Inhabited
@@ -382,6 +401,20 @@ def overlayInputsCheck (style : JoinStyle) (keys provided : List String) : Excep
   let missing := missingInputs keys provided
   if missing.isEmpty then .ok none
   else (missingNames style missing).map some
+
+/-- what a probe of the real `_prepare_overlays` observed for one `overlayRef` entry -/
+inductive OverlayObs where
+  | complete
+  | missing (names : List String)   -- the names quoted in the "expected the following inputs" PermFail
+  | raised
+  deriving Repr, DecidableEq
+
+def overlayProbeAgrees (keys provided : List String) (obs : OverlayObs) : Bool :=
+  match overlayInputsCheck modelJoinStyle keys provided, obs with
+  | .ok none, .complete => true
+  | .ok (some names), .missing seen => sameSet names (seen.map fun n => "\"" ++ n ++ "\"")
+  | .error _, .raised => true
+  | _, _ => false
 
 /-! ## FunctionTest: watched resources -/
 
